@@ -103,6 +103,18 @@ def check_schema(schema, tier, acc=None):
     except Exception as e:  # noqa
         bad(f'compile-raises:{type(e).__name__}@{tb_where(e)}', f'{e!r}')
         return 'compile-raises', viol
+    # the same model after a save/load round trip, and without its optional symbol table (documented as only needed for the
+    # identifiers of named patterns): verdicts must not depend on either
+    others = []
+    try:
+        others.append(('loaded', Checker.load(ck.save(), FNS)))
+        from ndn.app_support.light_versec.binary import LvsModel
+        bare = LvsModel.parse(bytes(model.encode()))
+        bare.symbols = []
+        others.append(('no-symbols', Checker(bare, FNS)))
+    except Exception as e:  # noqa
+        bad(f'reload-raises:{type(e).__name__}@{tb_where(e)}', f'{e!r}')
+        return 'reload-raises', viol
     ref = lvs_ref.RefSchema(schema, FNS)
     pool = name_pool(tier)
     names = [(t, comp_name(t)) for t in pool]
@@ -128,6 +140,18 @@ def check_schema(schema, tier, acc=None):
                     break
         if got != want:
             bad(f'check-differs|library={got}|reference={want}', f'check(/{"/".join(pt)}, /{"/".join(kt)}) = {got}, the schema text says {want}')
+            break
+        for label, c2 in others:
+            try:
+                g3 = bool(c2.check(list(pn), list(kn)))
+            except Exception as e:  # noqa
+                bad(f'check-raises:{type(e).__name__}@{tb_where(e)}|{label}', f'check(/{"/".join(pt)}, /{"/".join(kt)}) on the {label} model raised {e!r}')
+                break
+            if g3 != want:
+                bad(f'check-differs|{label}|library={g3}|reference={want}',
+                    f'check(/{"/".join(pt)}, /{"/".join(kt)}) on the {label} model = {g3}, the schema text says {want}')
+                break
+        if viol:
             break
         # trailing implicit digest on either name is ignored (sampled on the pairs that say yes and on the diagonal)
         if got or pt == kt:
